@@ -419,15 +419,23 @@ impl<'a> Binder<'a> {
                     rows.push(exprs?);
                 }
 
-                // Infer schema from first row
+                // Infer each column's type from the first row that gives it
+                // one: a NULL literal in the first row says nothing about
+                // the column.
                 let schema = if let Some(first_row) = rows.first() {
                     let fields: Vec<SchemaField> = first_row
                         .iter()
                         .enumerate()
                         .map(|(i, e)| {
-                            let dt = e
-                                .data_type(&PlanSchema::empty())
-                                .unwrap_or(ArrowDataType::Utf8);
+                            let dt = rows
+                                .iter()
+                                .filter_map(|r| r.get(i))
+                                .filter_map(|x| x.data_type(&PlanSchema::empty()).ok())
+                                .find(|t| !matches!(t, ArrowDataType::Null))
+                                .unwrap_or_else(|| {
+                                    e.data_type(&PlanSchema::empty())
+                                        .unwrap_or(ArrowDataType::Utf8)
+                                });
                             SchemaField::new(format!("column{}", i), dt)
                         })
                         .collect();
